@@ -321,6 +321,22 @@ pub fn dispatch(kind: &str, a: &[&str]) -> Option<String> {
                 }
             },
         },
+        // ---------- wave 5 (w_wr): is <s> read back as ONE unquoted scalar where the writer prints it (`a=<s> b=c`)? -> 1 | 0
+        ("writer.wfword", [h]) => {
+            let s = unhex(h);
+            let mut x = b"a=".to_vec();
+            x.extend_from_slice(&s);
+            x.extend_from_slice(b" b=c");
+            let ok = match TextTape::from_slice(&x) {
+                Ok(t) => {
+                    let k = t.tokens();
+                    let is = |i: usize, w: &[u8]| matches!(&k[i], TextToken::Unquoted(v) if v.as_bytes() == w);
+                    k.len() == 4 && is(0, b"a") && is(1, &s) && is(2, b"b") && is(3, b"c")
+                }
+                Err(_) => false,
+            };
+            (if ok { "1" } else { "0" }).to_string()
+        }
         // ---------- wave 4: sessions (reused writers, write_tape at depth, inner / into_inner) ----------
         ("writer.session", [cfg, segs @ ..]) => match run_session(cfg, segs) {
             Some(Ok((out, log))) => format!("{} {}", hex(&out), log),
